@@ -15,6 +15,8 @@ void *__real_realloc(void *, size_t);
 void __real_free(void *);
 char *__real_strdup(const char *);
 void __real__mpt_abort(const char *, const char *, const char *, int);
+void __real__ZdlPv(void *);
+void __real__ZdlPvm(void *, size_t);
 }
 
 namespace sim {
@@ -47,6 +49,7 @@ size_t ledger_live_since(uint64_t mark) {
 	size_t n = 0; if (led) for (auto &e : *led) if (e.second.serial > mark) ++n; return n;
 }
 bool ledger_is_live(const void *p) { return led && led->count(p); }
+bool ledger_covers(const void *p) { if (led) for (auto &e : *led) if ((const char *) p >= (const char *) e.first && (const char *) p < (const char *) e.first + e.second.size) return true; return false; }
 std::string ledger_describe(size_t max) {
 	std::vector<std::pair<uint64_t, size_t>> v;
 	if (led) for (auto &e : *led) v.emplace_back(e.second.serial, e.second.size);
@@ -129,6 +132,9 @@ void __wrap_free(void *p) {
 	if (p && !g.reent) led_del(p);
 	__real_free(p);
 }
+// operator delete: the C++ layer releases some malloc()ed objects with `delete this`
+void __wrap__ZdlPv(void *p) { if (p && !g.reent) led_del(p); __real__ZdlPv(p); }
+void __wrap__ZdlPvm(void *p, size_t n) { if (p && !g.reent) led_del(p); __real__ZdlPvm(p, n); }
 char *__wrap_strdup(const char *s) {
 	if (g.in_sut && !g.reent) {
 		if (should_fail()) return 0;
@@ -143,7 +149,7 @@ void __wrap__mpt_abort(const char *msg, const char *fcn, const char *file, int l
 }
 // classify sanitizer exits; leaks are attributed per run by the ledger instead
 __attribute__((used)) const char *__asan_default_options() {
-	return "exitcode=77:detect_leaks=0:abort_on_error=0:allocator_may_return_null=1:detect_stack_use_after_return=0:handle_abort=1";
+	return "exitcode=77:detect_leaks=0:abort_on_error=0:allocator_may_return_null=1:detect_stack_use_after_return=0:handle_abort=1:alloc_dealloc_mismatch=0";
 }
 __attribute__((used)) const char *__ubsan_default_options() {
 	return "print_stacktrace=1:halt_on_error=1:exitcode=77";
